@@ -15,6 +15,7 @@ A write-protected replica (omega read-only) supplies file:line when (2) fails fo
 import copy
 import itertools
 import traceback
+import warnings
 
 import numpy as np
 
@@ -48,6 +49,7 @@ OPS = list(CALC) + list(FLIPS) + ['resolve']
 SOLVERS = {'wolfe': ('krylov', {'line_search': 'wolfe', 'fatol': 1e-11, 'maxiter': 200}),
            'armijo': ('krylov', {'fatol': 1e-11, 'maxiter': 200}),
            'anderson': ('anderson', {'fatol': 1e-11, 'maxiter': 1500})}
+ERRSTATES = [dict(all='ignore'), dict(all='warn'), dict(divide='ignore', over='warn', under='ignore', invalid='ignore'), dict(divide='warn', over='ignore', under='ignore', invalid='warn')]
 _cache = {}
 LEGAL_PAIRS = 8 * 15 - 4      # resolve is not legal in the 4 states with omega in real space
 
@@ -230,7 +232,11 @@ def run_case(ctx, case):
             continue
         ctx.count('state_op', '%s%s%s/%s' % (st[0], st[1], st[2], op))
         try:
-            with np.errstate(all='ignore'):
+            # the user's own error-state setting varies from history to history ('raise' would turn the NaNs the functions
+            # legitimately produce, e.g. log of a negative argument, into exceptions, so only 'ignore' and 'warn' settings are used)
+            with np.errstate(**ERRSTATES[(len(case['history']) + step) % len(ERRSTATES)]), warnings.catch_warnings():
+                warnings.simplefilter('ignore')
+                errstate_inside = np.geterr()
                 if op in CALC:
                     ctx.hook('op.calc')
                     fn, kw = CALC[op]
@@ -245,6 +251,7 @@ def run_case(ctx, case):
                     if res is None or not res.success:
                         raise core.Skip('re-solve from own solution did not converge')
                     resolved = True
+                errstate_after = np.geterr()
         except core.Skip:
             raise
         except Exception as e:   # noqa
@@ -255,6 +262,19 @@ def run_case(ctx, case):
                           '%s raised %s: %s (at %s:%d %s)' % (where, type(e).__name__, str(e)[:120], fs.filename.split('/')[-1], fs.lineno, fs.line))
             return
         after = capture(p)
+        # ---- (0) nothing outside the object: numpy's global floating-point error state is the caller's, a post-processing call returns it as found
+        ctx.hook('global_fp_state_check')
+        if errstate_after != errstate_inside:
+            ctx.violation('hist:%s-changes-numpy-error-state' % (CALC[op][0] if op in CALC else op), '%s: numpy error state was %r before the call and is %r after it' % (where, errstate_inside, errstate_after))
+            return
+        # ---- (0b) the documented attribute PRISM.pairCorr, once it exists, is g(r) of the solved state
+        pc = getattr(p, 'pairCorr', None)
+        if pc is not None and not resolved:
+            ctx.hook('paircorr_attribute_check')
+            ok_pc = np.shape(pc.data) == np.shape(refs['g']) and np.allclose(np.asarray(pc.data), refs['g'], rtol=1e-7, atol=1e-7 * max(np.abs(refs['g']).max(), 1.0))
+            if not ok_pc:
+                ctx.violation('hist:%s-corrupts-pairCorr-attribute' % (CALC[op][0] if op in CALC else op), '%s: PRISM.pairCorr no longer holds g(r) of the solved object' % where)
+                return
         # ---- (1) value equals that of a fresh identically solved object
         if op in CALC:
             rtol = 1e-5 if resolved else 1e-7
